@@ -21,8 +21,11 @@ RULE = ("case 'read' = (format out of dbc, sym, kcd, json, dbf, arxml; an abstra
         "format allows; one described frame): the file is rendered by the independent writers in harness/lib/c15 (not by canmatrix), "
         "read with canmatrix.formats.loads, and the normal form of the frame that was read is compared with the described one on every "
         "feature the format carries; comments run over one to five lines where the format allows it (dbc, json, kcd, arxml), and a DBC file with CR LF "
-        "line ends has them inside such texts too. case 'ecus' = the described ECUs are present; with 'facts' = what the file says about each ECU "
-        "(comment, also over several lines; attribute values for dbc and dbf) is among what was read. case 'defs' with 'facts' (dbc, dbf) = the attribute "
+        "line ends has them inside such texts too; the free texts (comments of frames, signals, ECUs and SYM multiplexer groups, units, value "
+        "texts) also hold the punctuation of the statement grammars - double quotes, //, =, switches, brackets, keywords, markup characters - wherever "
+        "the format's definition lets a text hold it (GRAMMAR_TEXTS and the tables below it). case 'ecus' = the described ECUs are present; with 'facts' = what the file says about each ECU "
+        "(comment, also over several lines; attribute values for dbc and dbf) is among what was read; for sym, which knows no ECUs, the same case carries what "
+        "the file says about each multiplexer group (the comment behind its Mux= line, the empty text where there is none). case 'defs' with 'facts' (dbc, dbf) = the attribute "
         "values on network level and the named value tables (dbc) are read as described, and no others. case 'defs' (dbc, dbf) = every described attribute definition is "
         "present on its level with its type, parameters (range, ENUM values) and default (also the empty text). cases 'sgx'/'box' = one SG_/BO_ line of such a DBC "
         "file in its varied spacing through the real reader and through the Lean tokenizers; 'num' = one number text through Decimal() "
@@ -198,12 +201,98 @@ def got_global(db, fmt):
     return {"frame": {}, "signal": {}, "ecu": {}, "global": g}
 
 
+# Free text that holds the punctuation of the statement grammars.  A comment is free text in every format: behind '//' up to the line
+# end in SYM, between (escaped) quotes in DBC, an element's text in KCD/ARXML, a JSON string - so double quotes (an even and an odd
+# number of them), a second '//', '=', text that looks like a switch, a section, a keyword or markup belong to what a reader has to
+# take as it stands.  (None of them ends in a backslash or in quote + semicolon: DBC has no way to write those unambiguously.)
+GRAMMAR_TEXTS = ['speed "over ground"', 'brightness of the 5" display', '"quoted" from one end to the "other"', 'a "b" c" d', 'see // note',
+                 '// twice // over', 'ID=12h', 'x /u:V -m /f:2', '[Frame9]', 'two  blanks inside', 'Var=a unsigned 0,1', "driver's door", 'a\\b',
+                 'a < b & c > d', ']]> end', 'CM_ BO_ 5 "x" is no statement here', 'semicolon at end;', '100 %s %d', '{SEND}', '#hash', 'a,b',
+                 'BO_ 12 X: 8 Y', '[END_DESC_SIG]', '5 S x "y"', 'Mux=m 0,1 1', 'enum e(0="a")', "&quot;", "<!-- -->"]
+# units and value texts stand inside the statements themselves: what they may hold depends on how the format delimits them
+GRAMMAR_UNITS = {"all": ["km / h", "m/s^2", "[V]", "x=1", "#/min", "100 %s", "a;b"],
+                 "dbc": ["a,b", "a < b & c", "(1/min)"], "json": ["a,b", "a < b & c", 'in "Hg"', "a\\b"], "kcd": ["a,b", "a < b & c", 'in "Hg"', "a\\b"],
+                 "arxml": ["a,b", "a < b & c", 'in "Hg"', "a\\b"], "sym": ["a,b", "a < b & c", "/f:2", "-m"], "dbf": []}
+# SYM: an enum text with '=' or '//' in it is cut by the unchanged reader (reported, kept out of the stream); DBF and SYM have no way
+# to write a quote inside a quoted text
+GRAMMAR_VALUES = {"all": ["a,b", "driver's door", "x /u:V -m", "[Frame9]", "a;b", "{SEND}", "#hash", "two  blanks"],
+                  "dbc": ["x=1", "see // note", 'said "no"'], "json": ["x=1", "see // note", 'said "no"', "a < b & c"],
+                  "kcd": ["x=1", "see // note", 'said "no"', "a < b & c"], "arxml": ["x=1", "see // note", 'said "no"', "a < b & c"],
+                  "sym": [], "dbf": ["x=1", "see // note"]}
+
+
+def first_line(text, new):
+    """`text` with its first line replaced"""
+    rest = text.split("\n", 1)
+    return new + ("\n" + rest[1] if len(rest) > 1 else "")
+
+
+def spice(rng, net, fmt):
+    """let the free texts of a description hold the punctuation of the statement grammars: existing comments get another first
+    line, places without a comment get one now and then, units and value texts are replaced now and then; SYM multiplexer groups
+    get the comment their Mux= line may carry (the reader hands the first group's comment on as the multiplexer's comment)"""
+    def text():
+        return rng.choice(GRAMMAR_TEXTS)
+
+    def comment(old, p_new):
+        if old:
+            return first_line(old, text()) if rng.random() < 0.6 else old
+        return text() if rng.random() < p_new else old
+    units = GRAMMAR_UNITS["all"] + GRAMMAR_UNITS[fmt]
+    values = GRAMMAR_VALUES["all"] + GRAMMAR_VALUES[fmt]
+    for f in net["frames"]:
+        f["comment"] = comment(f["comment"], 0.3)
+        for s in f["signals"]:
+            nameless = s["mux"] == "M" and fmt in ("sym", "arxml")       # the multiplexer has no statement of its own there
+            if not nameless:
+                s["comment"] = comment(s["comment"], 0.2)
+            if s["mux"] != "M" and rng.random() < 0.25:
+                s["unit"] = rng.choice(units)
+            if s["values"] and s["mux"] != "M":
+                for k in sorted(s["values"]):
+                    if rng.random() < 0.3:
+                        s["values"][k] = rng.choice(values) + " " + k      # the texts of one table stay distinct
+            if fmt == "sym" and s["mux"] == "M" and s.get("values_names"):
+                groups = sorted(s["values_names"], key=int)
+                s["group_comments"] = {g: (text() if rng.random() < 0.5 else rng.choice(N.TEXTS)) for g in groups if rng.random() < 0.6}
+                s["comment"] = s["group_comments"].get(groups[0], "")
+    if fmt in ECU_COMMENTS:
+        for e in net["ecus"]:
+            new = comment(net["ecu_comments"].get(e, ""), 0.15)
+            if new:
+                net["ecu_comments"][e] = new
+    return net
+
+
+def want_group_facts(net):
+    """SYM: what the file says about each multiplexer group (in the shape of the 'ecus' case with facts: a list of statements)"""
+    out = []
+    for f in net["frames"]:
+        for s in f["signals"]:
+            if s["mux"] == "M" and s.get("values_names"):
+                for g in sorted(s["values_names"], key=int):
+                    out.append(fact("%s multiplexer group %s" % (f["name"], g), "comment", s.get("group_comments", {}).get(g, "")))
+    return out
+
+
+def got_group_facts(db):
+    out = []
+    for fr in db.frames:
+        for s in fr.signals:
+            if s.is_multiplexer:
+                for g, text in sorted(getattr(s, "comments", {}).items()):
+                    out.append(fact("%s multiplexer group %s" % (fr.name, g), "comment", text or ""))
+    return out
+
+
 def gen(rng, tier, shard, nshards):
     total = {"quick": 1600, "thorough": 16000}[tier] // nshards + 1
     for _ in range(total):
         fmt = rng.choice(FORMATS)
         R = module(fmt)
         net = N.gen_net(rng, getattr(R, "NET_OPTS", {}))
+        if rng.random() < 0.5:
+            net = spice(rng, net, fmt)
         level = 0 if rng.random() < 0.2 else 1
         lexseed = rng.randrange(1 << 30)
         base = {"fmt": fmt, "net": net, "lexseed": lexseed, "level": level}
@@ -216,6 +305,9 @@ def gen(rng, tier, shard, nshards):
         if fmt in ECU_COMMENTS:
             # what the file says about the ECUs themselves: comments (also over several lines), attribute values
             yield {"op": "ecus", "c": dict(base, facts=True, ecus=want_ecu_facts(net, fmt))}
+        if fmt == "sym" and want_group_facts(net):
+            # SYM knows no ECUs; what its file says about each multiplexer group (the comment behind the Mux= line) goes the same way
+            yield {"op": "ecus", "c": dict(base, facts=True, ecus=want_group_facts(net))}
         if any(net.get("defs", {}).get(lvl) for lvl in LEVELS):
             yield {"op": "defs", "c": dict(base, want=want_defs(net, fmt))}
         if fmt in LEVEL_VALUES:
@@ -256,7 +348,7 @@ def observe(case):
         return {"exc": r["exc"], "got": None, "errors": 0, "ecus": []}
     db = r["db"]
     if op == "ecus" and c.get("facts"):
-        return {"exc": None, "ecus": got_ecu_facts(db, c["fmt"])}
+        return {"exc": None, "ecus": got_group_facts(db) if c["fmt"] == "sym" else got_ecu_facts(db, c["fmt"])}
     if op == "ecus":
         return {"exc": None, "ecus": sorted(e.name for e in db.ecus)}
     if op == "defs" and c.get("facts"):
@@ -281,6 +373,23 @@ def lines_class(text):
     return "1 line" if n == 1 else "2 lines" if n == 2 else "3+ lines"
 
 
+def punct_class(text):
+    """which punctuation of the statement grammars a free text holds (for the distribution in the evidence)"""
+    q = text.count('"')
+    out = []
+    if q:
+        out.append("quotes:even" if q % 2 == 0 else "quotes:odd")
+    if "//" in text:
+        out.append("//")
+    if any(x in text for x in ("=", "[", "{", "/u:", "-m", "BO_", "Var", "Mux", "enum")):
+        out.append("statement-like")
+    if any(x in text for x in ("<", "&", "]]>")):
+        out.append("markup")
+    if "\\" in text:
+        out.append("backslash")
+    return out
+
+
 def features(case, impl):
     c = case["c"]
     yield "op=" + case["op"]
@@ -290,9 +399,18 @@ def features(case, impl):
             yield "encoding=%s/%s" % (c["fmt"], c["enc"])
     if case["op"] in ("ecus", "defs") and c.get("facts"):
         yield "facts:" + ("ecu" if case["op"] == "ecus" else "network")
-        texts = [t for t in c["net"].get("ecu_comments", {}).values()] if case["op"] == "ecus" else []
+        texts = [t for t in c["net"].get("ecu_comments", {}).values()] if (case["op"] == "ecus" and c["fmt"] in ECU_COMMENTS) else []
         for t in texts:
             yield "ecu comment:%s" % lines_class(t)
+            for k in punct_class(t):
+                yield "%s:ecu comment with %s" % (c["fmt"], k)
+        if case["op"] == "ecus" and c["fmt"] == "sym":
+            for f in c["net"]["frames"]:
+                for sg in f["signals"]:
+                    for t in sg.get("group_comments", {}).values():
+                        yield "sym:multiplexer group comment"
+                        for k in punct_class(t):
+                            yield "sym:multiplexer group comment with %s" % k
         if case["op"] == "defs":
             if c["want"]["global"].get("value tables"):
                 yield "network:value table"
@@ -311,9 +429,17 @@ def features(case, impl):
                 yield "%s:line ends:%s with a text over several lines" % (c["fmt"], impl["eol"])
         if d["comment"]:
             yield "%s:frame comment:%s" % (c["fmt"], lines_class(d["comment"]))
+            for k in punct_class(d["comment"]):
+                yield "%s:frame comment with %s" % (c["fmt"], k)
         for s in d["signals"]:
             if s["comment"]:
                 yield "%s:signal comment:%s" % (c["fmt"], lines_class(s["comment"]))
+                for k in punct_class(s["comment"]):
+                    yield "%s:signal comment with %s" % (c["fmt"], k)
+            for k in punct_class(s["unit"]) + ([] if " " not in s["unit"] else ["blank"]):
+                yield "%s:unit with %s" % (c["fmt"], k)
+            for k in sorted({k for v in s["values"].values() for k in punct_class(v)}):
+                yield "%s:value text with %s" % (c["fmt"], k)
             yield "%s:%s%s" % (c["fmt"], "intel" if s["little"] else "motorola", "/float" if s["float"] else "")
             if s["mux"] is not None:
                 yield c["fmt"] + ":mux"
